@@ -7,6 +7,7 @@ a simulated/adversarial RNG; scale-and-discretise.
 """
 import copy
 import random
+import sys
 
 import numpy as np
 from collections import Counter
@@ -89,7 +90,8 @@ class World:
                 a = {"circs": circs, "shots": mx_shots or [shots_for(mx) for _ in range(k)],
                      "max": (p0["max"] if mx_shots else (mx if op == "expand" else r.choice([1, 2, 3, 4, 10, 0, -1]))),
                      "foreign": [r.randint(0, 3) for _ in range(k)] if r.random() < 0.25 else None,
-                     "via": r.choice(["counts", "bitstrings"]), "batchrun": r.random() < 0.5, "memo": r.random() < 0.35}
+                     "via": r.choice(["counts", "bitstrings"]), "batchrun": r.random() < 0.5, "memo": r.random() < 0.35,
+                     "nptype": r.choice([None, None, None, None, "i64", "i32", "i16"]), "huge_max": r.random() < 0.3}
                 s = {"op": op, "args": a}
                 if cfg["faults"] != "none" and r.random() < 0.15:
                     s["fault"] = {"kind": "peer", "at": r.randrange(0, 5)}
@@ -187,6 +189,17 @@ class World:
         be = st["backend"]
         circs = [gen.build_circuit(gen.basis_circuit(b)) for b in a["circs"]]
         shots, mx = list(a["shots"]), a["max"]
+        npt = a.get("nptype")
+        if npt:
+            # sample counts as numpy integers of a fixed width (what list(np.array(...)) gives), possibly with an
+            # "unlimited" maximum
+            dt = {"i64": np.int64, "i32": np.int32, "i16": np.int16}[npt]
+            if a.get("huge_max") and npt == "i64":
+                mx = sys.maxsize
+            # (numpy refuses mixed arithmetic with a Python int outside the dtype's range: keep the maximum inside it)
+            if all(0 < x <= np.iinfo(dt).max for x in shots) and 0 < mx <= np.iinfo(dt).max:
+                shots = [dt(x) for x in shots]
+                ctx.probe("numpy-integer-counts")
         if len(circs) == 1:
             ctx.probe("single-circuit")
         ok, res = call(expand_sample_sizes, circs, shots, mx)
@@ -202,7 +215,7 @@ class World:
                 ctx.check(m >= 1, "conservation", "multiplicity-zero", f"circuit {i}: multiplicity {m}")
                 part = new_n[pos:pos + m]
                 ctx.check(all(x is c for x in new_c[pos:pos + m]), "order", "expanded-circuit-order", f"copies of circuit {i} are not in place")
-                ctx.check(all(isinstance(x, int) and 1 <= x <= mx for x in part), "conservation", "copy-size-out-of-range", f"circuit {i}: copy sizes {part} with max {mx}")
+                ctx.check(all(isinstance(x, (int, np.integer)) and not isinstance(x, bool) and 1 <= x <= mx for x in part), "conservation", "copy-size-out-of-range", f"circuit {i}: copy sizes {part} with max {mx}")
                 ctx.check(sum(part) == want, "conservation", "expanded-sum", f"circuit {i}: copies {part} sum to {sum(part)}, requested {want} (max {mx})")
                 pos += m
                 if m >= 2:
